@@ -2,6 +2,7 @@
 package c07
 
 import (
+	"time"
 	"io"
 	"bytes"
 	"fmt"
@@ -665,4 +666,98 @@ func TestManyIssuers(t *testing.T) {
 	P.EvalN(n + len(first))
 	P.AddDistinct(n)
 	P.SetExtra("distinct_issuers_in_one_process", n)
+}
+
+// TestOptionSequences: "all option combinations" includes an option given more than once and options that speak about
+// the same field (WithEmptyNonce and WithNonce, two expirations, WithoutInvokedAt and WithInvokedAt ...), in every
+// order. Whatever list the constructor ACCEPTS yields a token that seals and unseals, with the accessors unchanged.
+func TestOptionSequences(t *testing.T) {
+	ctx := &h.Ctx{P: P, T: t}
+	iss, aud := keys.Principal(0), keys.Principal(1)
+	nonceOpts := []int{-1, 0, 1, 11, 12, 13}
+	n := 0
+	var seqs [][]int
+	for _, a := range nonceOpts {
+		seqs = append(seqs, []int{a})
+		for _, b := range nonceOpts {
+			seqs = append(seqs, []int{a, b})
+			for _, c := range []int{-1, 1, 12} {
+				seqs = append(seqs, []int{a, b, c})
+			}
+		}
+	}
+	check := func(tk token.Token, what string) {
+		n++
+		type sealer interface {
+			ToSealed(crypto.PrivKey) ([]byte, cid.Cid, error)
+			ToDagJson(crypto.PrivKey) ([]byte, error)
+		}
+		v0, err := tok.ViewOf(tk)
+		if err != nil {
+			ctx.Fail("C07/option-sequence/accessors", "%s: accessors of a constructed token fail: %v", what, err)
+			return
+		}
+		sealed, id, err := tk.(sealer).ToSealed(iss.Priv)
+		if err != nil {
+			ctx.Fail("C07/option-sequence/seal-fails", "%s: the constructor accepted the options, sealing fails: %v", what, err)
+			return
+		}
+		back, id2, err := token.FromSealed(sealed)
+		if err != nil || id2 != id {
+			ctx.Fail("C07/option-sequence/unseal-fails", "%s: the constructor accepted the options and the token seals, but it cannot be unsealed: %v", what, err)
+			return
+		}
+		if v1, err := tok.ViewOf(back); err != nil || tok.Diff(v0, v1) != "" {
+			ctx.Fail("C07/option-sequence/changed", "%s: the unsealed token differs from the constructed one: %s %v", what, tok.Diff(v0, v1), err)
+			return
+		}
+		js, err := tk.(sealer).ToDagJson(iss.Priv)
+		if err != nil {
+			ctx.Fail("C07/option-sequence/seal-fails", "%s: ToDagJson fails: %v", what, err)
+			return
+		}
+		if _, err := token.FromDagJson(js); err != nil {
+			ctx.Fail("C07/option-sequence/unseal-fails", "%s: FromDagJson fails: %v", what, err)
+		}
+	}
+	for _, sq := range seqs {
+		var iopts []invocation.Option
+		var dopts []delegation.Option
+		dOK := true
+		for _, x := range sq {
+			if x < 0 {
+				iopts = append(iopts, invocation.WithEmptyNonce())
+				dOK = false
+				continue
+			}
+			iopts = append(iopts, invocation.WithNonce(bytes.Repeat([]byte{7}, x)))
+			dopts = append(dopts, delegation.WithNonce(bytes.Repeat([]byte{7}, x)))
+		}
+		for _, extra := range []int{0, 1, 2} {
+			io, do := append([]invocation.Option{}, iopts...), append([]delegation.Option{}, dopts...)
+			switch extra {
+			case 1: // options about other fields, twice
+				io = append(io, invocation.WithExpirationIn(time.Hour), invocation.WithExpirationIn(2*time.Hour), invocation.WithoutInvokedAt(), invocation.WithInvokedAtIn(-time.Minute), invocation.WithMeta("k", "v"), invocation.WithArgument("a", 1))
+				do = append(do, delegation.WithExpirationIn(time.Hour), delegation.WithExpirationIn(2*time.Hour), delegation.WithNotBeforeIn(-time.Hour), delegation.WithNotBeforeIn(-time.Minute), delegation.WithMeta("k", "v"))
+			case 2: // the same, in front
+				io = append([]invocation.Option{invocation.WithInvokedAtIn(-time.Minute), invocation.WithoutInvokedAt(), invocation.WithAudience(aud.DID), invocation.WithAudience(iss.DID)}, io...)
+				do = append([]delegation.Option{delegation.WithSubject(iss.DID), delegation.WithSubject(aud.DID), delegation.WithSubject(iss.DID)}, do...)
+			}
+			if iv, err := invocation.New(iss.DID, aud.DID, command.MustParse("/foo"), []cid.Cid{}, io...); err == nil {
+				check(iv, fmt.Sprintf("invocation.New with nonce options %v (extra set %d)", sq, extra))
+				P.Class("option-sequence:inv-accepted")
+			} else {
+				P.Class("option-sequence:inv-refused")
+			}
+			if dOK {
+				if d, err := delegation.New(iss.DID, aud.DID, command.MustParse("/foo"), policy.Policy{}, do...); err == nil {
+					check(d, fmt.Sprintf("delegation.New with nonce options %v (extra set %d)", sq, extra))
+					P.Class("option-sequence:dlg-accepted")
+				}
+			}
+		}
+	}
+	P.EvalN(n)
+	P.AddDistinct(n)
+	P.SetExtra("option_sequences", n)
 }
